@@ -25,8 +25,97 @@ pub static INT3_DER: &[u8] = include_bytes!("../certs/int3.der");
 pub static BIG_DER: &[u8] = include_bytes!("../certs/bigleaf.der");
 pub static BIG_KEY: &[u8] = include_bytes!("../certs/bigleaf.key.der");
 
+// ------------------------------------------------------------------------------------------
+// Deterministic TLS: rustls + ring with every source of randomness (hello randoms, session ids,
+// X25519 ephemeral keys) drawn from a per-world PRNG. The cryptography itself is unchanged real
+// code; only its entropy is replaced, so that ciphertext bytes — and with them every branch a
+// receiver takes on undecryptable or damaged packets — are a pure function of the world's seed.
+// ------------------------------------------------------------------------------------------
+
+thread_local! {
+    static TLS_RNG: std::cell::RefCell<Rng> = std::cell::RefCell::new(Rng::new(0x715));
+}
+
+/// (re)seed the TLS entropy of the world running on this thread
+pub fn seed_tls(seed: u64) {
+    TLS_RNG.with(|r| *r.borrow_mut() = Rng::new(seed ^ 0x715_5EED));
+}
+
+fn tls_fill(buf: &mut [u8]) {
+    TLS_RNG.with(|r| {
+        let mut r = r.borrow_mut();
+        for c in buf.chunks_mut(8) {
+            let w = r.next_u64().to_le_bytes();
+            c.copy_from_slice(&w[..c.len()]);
+        }
+    });
+}
+
+#[derive(Debug)]
+struct DetRandom;
+
+impl rustls::crypto::SecureRandom for DetRandom {
+    fn fill(&self, buf: &mut [u8]) -> Result<(), rustls::crypto::GetRandomFailed> {
+        tls_fill(buf);
+        Ok(())
+    }
+}
+
+#[derive(Debug)]
+struct DetX25519;
+
+struct DetX25519Active {
+    priv_key: ring::agreement::EphemeralPrivateKey,
+    pub_key: ring::agreement::PublicKey,
+}
+
+impl rustls::crypto::SupportedKxGroup for DetX25519 {
+    fn start(&self) -> Result<Box<dyn rustls::crypto::ActiveKeyExchange>, rustls::Error> {
+        let mut seed = [0u8; 32];
+        tls_fill(&mut seed);
+        #[allow(deprecated)]
+        let rng = ring::test::rand::FixedSliceRandom { bytes: &seed };
+        let priv_key = ring::agreement::EphemeralPrivateKey::generate(&ring::agreement::X25519, &rng).map_err(|_| rustls::Error::General("x25519 keygen".into()))?;
+        let pub_key = priv_key.compute_public_key().map_err(|_| rustls::Error::General("x25519 pubkey".into()))?;
+        Ok(Box::new(DetX25519Active { priv_key, pub_key }))
+    }
+    fn name(&self) -> rustls::NamedGroup {
+        rustls::NamedGroup::X25519
+    }
+}
+
+impl rustls::crypto::ActiveKeyExchange for DetX25519Active {
+    fn complete(self: Box<Self>, peer: &[u8]) -> Result<rustls::crypto::SharedSecret, rustls::Error> {
+        let peer_key = ring::agreement::UnparsedPublicKey::new(&ring::agreement::X25519, peer);
+        ring::agreement::agree_ephemeral(self.priv_key, &peer_key, |secret| rustls::crypto::SharedSecret::from(secret)).map_err(|_| rustls::Error::PeerMisbehaved(rustls::PeerMisbehaved::InvalidKeyShare))
+    }
+    fn pub_key(&self) -> &[u8] {
+        self.pub_key.as_ref()
+    }
+    fn group(&self) -> rustls::NamedGroup {
+        rustls::NamedGroup::X25519
+    }
+}
+
+/// rustls reads the wall clock for certificate validity and ticket ages; give it a fixed instant
+/// inside the committed certificates' validity so that no real time leaks into a world
+#[derive(Debug)]
+struct FixedTime;
+
+impl rustls::time_provider::TimeProvider for FixedTime {
+    fn current_time(&self) -> Option<rustls::pki_types::UnixTime> {
+        Some(rustls::pki_types::UnixTime::since_unix_epoch(Duration::from_secs(1_790_000_000)))
+    }
+}
+
+static DET_RANDOM: DetRandom = DetRandom;
+static DET_X25519: DetX25519 = DetX25519;
+
 pub fn provider() -> Arc<rustls::crypto::CryptoProvider> {
-    Arc::new(rustls::crypto::ring::default_provider())
+    let mut p = rustls::crypto::ring::default_provider();
+    p.secure_random = &DET_RANDOM;
+    p.kx_groups = vec![&DET_X25519];
+    Arc::new(p)
 }
 
 /// rustls server config. `big` selects the 4-certificate chain (server flight > 3 x 1200 bytes).
@@ -45,7 +134,7 @@ pub fn rustls_server(big: bool, early_data: bool) -> rustls::ServerConfig {
         (vec![CertificateDer::from(LEAF_DER.to_vec())], LEAF_KEY)
     };
     let key = PrivateKeyDer::Pkcs8(PrivatePkcs8KeyDer::from(key.to_vec()));
-    let mut cfg = rustls::ServerConfig::builder_with_provider(provider())
+    let mut cfg = rustls::ServerConfig::builder_with_details(provider(), Arc::new(FixedTime))
         .with_protocol_versions(&[&rustls::version::TLS13])
         .unwrap()
         .with_no_client_auth()
@@ -59,7 +148,7 @@ pub fn rustls_server(big: bool, early_data: bool) -> rustls::ServerConfig {
 pub fn rustls_client(early_data: bool) -> rustls::ClientConfig {
     let mut roots = rustls::RootCertStore::empty();
     roots.add(CertificateDer::from(ROOT_DER.to_vec())).unwrap();
-    let mut cfg = rustls::ClientConfig::builder_with_provider(provider())
+    let mut cfg = rustls::ClientConfig::builder_with_details(provider(), Arc::new(FixedTime))
         .with_protocol_versions(&[&rustls::version::TLS13])
         .unwrap()
         .with_root_certificates(roots)
